@@ -630,13 +630,55 @@ fn one(rep: &mut Report, w: &mut Worker, c: &Case) {
                          "own2": own2.keys().map(|p| short(p)).collect::<Vec<_>>()}));
 }
 
+/// DumpRegistry.tla: every order of registrations exported by TLC goes through the real
+/// `DumpRegistry::get_repo_path`; the directories must be inside the base directory, pairwise distinct for distinct
+/// rpkiNotify URIs (C30), the same again for a URI asked twice, and named as the model says (conformance).
+fn dump_registry(rep: &mut Report, regs: &[&Value]) {
+    use std::str::FromStr;
+    let base = PathBuf::from("/dump/store");
+    for b in regs {
+        let mut reg = routinator::utils::dump::DumpRegistry::new(base.clone());
+        let mut given: Vec<(String, PathBuf)> = Vec::new();
+        let seq = b["regs"].as_array().unwrap();
+        for r in seq {
+            let (auth, path) = (r[0][0].as_str().unwrap(), r[0][1].as_str().unwrap());
+            // single-label hosts, so that the host "h-1" collides with the numbered name of the second repository of "h"
+            let uri = format!("https://{auth}/{path}/notification.xml");
+            let https = match rpki::uri::Https::from_str(&uri) { Ok(u) => u, Err(_) => { rep.divergence(P, format!("dump registry: {uri} refused")); continue } };
+            let p = reg.get_repo_path(Some(&https));
+            let again = reg.get_repo_path(Some(&https));
+            rep.eval(P);
+            let ctx = json!({"dump_registry_registrations": seq, "uri": uri});
+            if again != p {
+                rep.violation(P, "dump-registry/unstable", format!("{uri} gets {} and then {}", p.display(), again.display()), ctx.clone(), json!({}));
+            }
+            if !p.starts_with(&base) || p == base {
+                rep.violation(P, "dump-registry/escape", format!("{uri} is dumped to {}", p.display()), ctx.clone(), json!({}));
+            }
+            if let Some((other, _)) = given.iter().find(|(u, q)| *u != uri && *q == p) {
+                rep.violation(P, "dump-registry/shared-directory",
+                    format!("{other} and {uri} are dumped to the same directory {}", p.display()), ctx.clone(), json!({"directory": p.display().to_string()}));
+            }
+            let want = r[1].as_str().unwrap().to_string();
+            if p.file_name().map(|n| n.to_string_lossy().into_owned()) != Some(want.clone()) {
+                rep.divergence(P, format!("dump registry: {uri} gets {}, the model says {want}", p.display()));
+            }
+            given.push((uri, p));
+        }
+        rep.nontrivial(P, format!("dumpreg|{}", b["regs"]));
+    }
+    rep.note(P, "dump_registry_sequences", json!(regs.len()));
+}
+
 pub fn main(args: &Args) -> i32 {
     let behaviours = read_behaviours(args.input.as_deref().expect("--in"));
     install_http();
     // unordered pairs once (the export lists neighbours in both directions)
     let mut seen = BTreeSet::new();
     let mut cases: Vec<Case> = Vec::new();
+    let mut regs: Vec<&Value> = Vec::new();
     for b in &behaviours {
+        if b["kind"] == "dumpreg" { regs.push(b); continue }
         let c = parse_case(b);
         let mut k = vec![c.u[0].clone(), c.u[1].clone()];
         k.sort();
@@ -691,5 +733,6 @@ pub fn main(args: &Args) -> i32 {
     });
     for r in reports { rep.absorb(r); }
     rep.note(P, "cases", json!(total));
+    dump_registry(&mut rep, &regs);
     rep.write(args)
 }
